@@ -7,7 +7,7 @@ from .. import listing as Lm
 from ..core import BadSpec, Outcome, exc_kind
 from . import c12
 
-FUZZ = {"quick": 0, "thorough": 6000}   # libFuzzer -runs per shard (slow target)
+FUZZ = {"quick": 0, "thorough": 3000}   # libFuzzer -runs per shard (slow target)
 ID = "C13"
 TECHNIQUE = ("property-based testing (Hypothesis): (i) one patch object with temporary and global-free labels inserted "
              "1-8 times in one rewrite, checked for name uniqueness, per-invocation suffixes and label capture; error "
